@@ -35,6 +35,7 @@
 #include "newlines/remove.h"
 #include "newlines/sparens.h"
 #include "newlines/squeeze.h"
+#include "options_for_QT.h"
 #include "output.h"
 #include "parens.h"
 #include "parent_for_pp.h"
@@ -2538,6 +2539,12 @@ void uncrustify_end()
    while ((pc = Chunk::GetHead())->IsNotNullChunk())
    {
       Chunk::Delete(pc);
+   }
+
+   // options overridden for a Qt SIGNAL/SLOT macro must not outlive the file
+   if (QT_SIGNAL_SLOT_found)
+   {
+      restore_options_for_QT();
    }
 
    if (cpd.bout)
